@@ -5,6 +5,7 @@
 // Which moves reset the clock is a case split of the driver (all 2^n patterns are run), not a solver variable.
 #include "position.cpp"
 #include "enginecontrol.cpp"
+int TBProbeData::maxPieces = 4;   // environment (defined in tbprobe.cpp, which is not part of this unit): largest tablebase size
 #include "verif.h"
 
 #ifndef MAXM
